@@ -956,12 +956,18 @@ def stage_session(rep, rng, ntrees, ncalls, recorded=()):
                     s['extra'] = ['*.h']
                 tabs.append(fn_table(s['fn'], sc.fsys))
             mcalls, results = [], []
-            for _ in range(ncalls):
-                i = rng.randrange(len(specs))
+            # call histories: random ones, and in most sessions a directed beginning - the same search first WITHOUT
+            # registering for the distribution and then with it (the second is served from the cache filled by the first),
+            # or twice with registration
+            plan = []
+            if rng.random() < 0.8:
+                i0 = rng.randrange(len(specs))
+                plan += [(i0, rng.random() < 0.25, True), (i0, True, True)]
+            while len(plan) < ncalls:
+                plan.append((rng.randrange(len(specs)), rng.random() < 0.75, rng.random() < 0.8))
+            for i, dist, cache in plan:
                 spec, tab = specs[i], tabs[i]
                 ff, mspec = build_filter(spec, tab)
-                dist = rng.random() < 0.75
-                cache = rng.random() < 0.8
                 rep.count('session:dist=%s,cache=%s' % (dist, cache))
                 if ff is None:
                     mcalls.append([mspec, [], dist, cache])
